@@ -27,6 +27,8 @@ pub enum NetFault {
     Empty,
     /// correct body, but the Content-Length header announces this many bytes
     LieContentLength(u64),
+    /// the requested bytes, then junk without end
+    Endless,
 }
 
 #[derive(Clone, Copy, Debug, PartialEq, Eq)]
@@ -56,6 +58,8 @@ pub struct Server {
     pub max_delay_ns: u64,
     /// fault for the i-th request (None = behave)
     pub script: Vec<Option<NetFault>>,
+    /// fault for every request beyond the script (a server that never recovers)
+    pub default_fault: Option<NetFault>,
     pub log: Vec<LoggedRequest>,
 }
 
@@ -89,12 +93,19 @@ fn fragment(body: &[u8], frag: BodyFrag, max_delay_ns: u64, tape: &mut Tape) -> 
 
 impl Server {
     pub fn new(content: Arc<Vec<u8>>) -> Self {
-        Server { content, frag: BodyFrag::One, max_delay_ns: 0, script: Vec::new(), log: Vec::new() }
+        Server { content, frag: BodyFrag::One, max_delay_ns: 0, script: Vec::new(), default_fault: None, log: Vec::new() }
     }
 
     fn handle(&mut self, req: &ReqInfo, tape: &mut Tape) -> ResponsePlan {
         let idx = self.log.len();
-        let fault = self.script.get(idx).cloned().flatten();
+        let fault = match self.script.get(idx) {
+            Some(f) => f.clone(),
+            None => self.default_fault.clone(),
+        };
+        // keep the log of a never-ending exchange bounded
+        if self.log.len() > 100_000 {
+            self.log.truncate(1000);
+        }
         let parsed = req.range.as_deref().and_then(parse_range);
         self.log.push(LoggedRequest { range: req.range.clone(), parsed, time_ns: req.time_ns, fault: fault.clone(), headers: req.headers.clone() });
         let len = self.content.len() as u64;
@@ -158,8 +169,12 @@ impl Server {
                 body.clear();
             }
             Some(NetFault::LieContentLength(n)) => lie = Some(n),
+            Some(NetFault::Endless) => {
+                tail = Some((65536, u64::MAX));
+                lie = None;
+            }
         }
-        let content_length = lie.or(Some(body.len() as u64));
+        let content_length = if tail.map(|t| t.1 == u64::MAX).unwrap_or(false) { None } else { lie.or(Some(body.len() as u64)) };
         let fragments = fragment(&body, self.frag, self.max_delay_ns, tape);
         ResponsePlan {
             connect: Ok(()),
